@@ -144,6 +144,12 @@ def c_change(ctx, it, cfg):
             b, s = o.PSDbounds, o.PSDsize
             V0 = NP.sum(Arr((o.bins,), lambda i: P.get(i) * (b.get(i + 1) - b.get(i)) * power(s.get(i), 3)))
             ctx.prove('third-moment-preserved-unless-interpolated-volume-is-zero', implies(not_(eq(V0, 0)), eq(newV, oldV)))
+            # what is interpolated: the number DENSITY of the old distribution, attached to the old class CENTRES, evaluated at the new class centres
+            xq, xp_, fp_ = P.interp_of
+            bo, po = pre['PSDbounds'].fn, pre['PSD'].fn
+            forall(ctx, 'interpolation/old-classes-are-represented-by-their-centres', 0, bins0, lambda i: eq(2 * xp_.get(i), bo(i) + bo(i + 1)))
+            forall(ctx, 'interpolation/ordinates-are-the-old-number-densities', 0, bins0, lambda i: eq(fp_.get(i) * (bo(i + 1) - bo(i)), po(i)))
+            forall(ctx, 'interpolation/evaluated-at-the-new-centres', 0, o.bins, lambda i: eq(xq.get(i), s.get(i)))
     frame(ctx, 'self', o, pre, modifies=['min', 'max', 'bins', 'PSDbounds', 'PSDsize', 'PSD', '_prevPSD', '_prevPSDbounds', '_netFlux'])
     ctx.prove('canary/number-preserved-instead', eq(NP.sum(o.PSD), NP.sum(pre['PSD'].value)), expect='refuted')
 
@@ -330,3 +336,31 @@ def c_change_small(ctx, it, cfg):
 # invariant on objects reached from the real constructor by every sequence of <= 2 (quick) / <= 3 (thorough) public grid operations
 c_add_history = REG.contract('bounded-history/addSizeClasses', [T + 'addSizeClasses', T + '__init__', T + 'reset', T + 'createBackup', T + 'revert', T + 'changeSizeClasses', T + 'UpdatePBMEuler'],
                              configs=history_configs(2, 3), bounded='operation sequences of length <= 2 (quick) / <= 3 (thorough) from the real constructor; arguments symbolic')(with_history(c_add))
+
+
+@REG.contract('UpdatePBMEuler/recorded-history', [T + 'UpdatePBMEuler', T + 'record'])
+def c_update_recorded(ctx, it, cfg):
+    """with recording on, the row appended for a step holds the distribution as it is STORED for that step (classes below one particle already removed),
+    the current class boundaries and the time; earlier rows are untouched"""
+    k = integer(ctx, 'records', lambda v: v >= 1)
+    o, w, g = mk(ctx, it)
+    mb = o.fields['maxBins']
+    ctx.assume(o.bins <= mb)
+    rt = array(ctx, 'rec_time', (k,))
+    rb = array(ctx, 'rec_bins', (k, mb + 1))
+    rp = array(ctx, 'rec_PSD', (k, mb))
+    o.fields.update(_record=True, _adaptiveBinSize=True, _recordedTime=rt, _recordedBins=rb, _recordedPSD=rp)
+    f_t, f_b, f_p = rt.snap(), rb.snap(), rp.snap()
+    newN = array(ctx, 'newN', (o.bins,), fact=lambda v, i: v >= 0)
+    n0 = newN.snap()
+    time = real(ctx, 'time')
+    o.UpdatePBMEuler(time, newN)
+    T2, B2, P2 = o.fields['_recordedTime'], o.fields['_recordedBins'], o.fields['_recordedPSD']
+    ctx.prove('one-row-appended', and_(eq(T2.shape[0], k + 1), eq(B2.shape[0], k + 1), eq(P2.shape[0], k + 1), eq(B2.shape[1], mb + 1), eq(P2.shape[1], mb)))
+    ctx.prove('time-of-the-step-recorded', eq(T2.get(k), time))
+    forall(ctx, 'recorded-distribution-is-the-stored-one', 0, o.bins, lambda i: and_(eq(P2.get(k, i), o.PSD.get(i)), eq(P2.get(k, i), ite(ge(n0(i), 1), n0(i), 0))))
+    forall(ctx, 'recorded-boundaries-are-the-current-ones', 0, o.bins + 1, lambda i: eq(B2.get(k, i), o.PSDbounds.get(i)))
+    forall(ctx, 'unused-columns-are-zero', o.bins, mb, lambda i: eq(P2.get(k, i), 0))
+    r, c = integer(ctx, 'r', lambda v: v >= 0), integer(ctx, 'c', lambda v: v >= 0)
+    ctx.assume(r < k)
+    ctx.prove('earlier-rows-untouched', and_(eq(T2.get(r), f_t(r)), implies(c < mb, eq(P2.get(r, c), f_p(r, c))), implies(c <= mb, eq(B2.get(r, c), f_b(r, c)))), inst=[r, c])
